@@ -199,7 +199,15 @@ def run(prop, tier, replay=None):
     rep.extra["events_validated"] = sum(len(t["events"]) for t in traces)
     rep.extra["clause_skips"] = sum(len(x) for x in st["skips"].values())
     classify(rep, prop, traces, verdicts, known_db)
-    rep.cov["samples"] = [common.shorten_trace(t) for t in traces[:3]]
+    rep.cov["samples"] = [common.shorten_trace(t) for t in traces[:2]]
+    # backtest-level stage: the same judge on programs run by the real Backtest
+    BT = {"C16": ("bankrupt", (80, 1500)), "C03": ("flows", (60, 1200)), "C01": (["flat", "nested"], (40, 800)),
+          "C02": (["flat", "nested", "flows"], (40, 800)), "C07": (["flat", "nested"], (40, 800)), "C08": (["flat", "nested"], (40, 800))}
+    if prop in BT:
+        import check_bt
+
+        fam, (nq, nt) = BT[prop]
+        check_bt.stage(rep, prop, fam, nq if tier == "quick" else nt, known_db)
     rep.extra["sources"] = __import__("btload").source_info()
     rep.extra["trees"] = sorted(set(t["C"].get("tree") for t in traces))
     rep.assumptions = [
